@@ -132,7 +132,7 @@ def judge(ctx):
         pass
 
 
-CFG = G.cfg(p_weight=0.6, max_weight=3, derived_weights=True, max_constraints=2)
+CFG = G.cfg(p_weight=0.6, max_weight=3, derived_weights=True, max_constraints=2, round_skeleton=True)
 P = D.DesignProperty(
     "C23", judge,
     rule=("case = generated design spec with at least one weighted basic factor and its copy-expanded twin; both are exhausted through the "
